@@ -12,10 +12,12 @@ import (
 	"sort"
 	"strings"
 	"sync"
+	"sync/atomic"
 	"testing/synctest"
 	"time"
 
 	"github.com/go-logr/logr"
+	"k8s.io/client-go/util/workqueue"
 	"sigs.k8s.io/controller-runtime/pkg/log"
 	"sigs.k8s.io/controller-runtime/pkg/reconcile"
 )
@@ -52,6 +54,7 @@ type Call struct {
 	Phase int // 0 request, 1 response (slow response)
 	Idx   int // index among fault-eligible calls of this run (assigned at release)
 	arr   int
+	sib   int
 	ch    chan resume
 	res   resume
 }
@@ -100,6 +103,7 @@ type ReadRec struct {
 	Err  error
 	Step int
 	At   time.Time
+	EvSeq uint64 // store event sequence when the read executed
 }
 
 type WriteRec struct {
@@ -179,6 +183,7 @@ type Sim struct {
 	timers    timerHeap
 	ownerSeq  map[int]int
 	goids     map[uint64]*Task
+	sib       map[uint64]int // goroutine -> 1 + piece of the workqueue.ParallelizeUntil worker (0: none)
 	arrSeq    int
 	start     time.Time
 	step      int
@@ -234,11 +239,12 @@ type Action struct {
 }
 
 func NewSim(cfg *RunConfig, ch *Chooser) *Sim {
-	s := &Sim{Cfg: cfg, Ch: ch, ownerSeq: map[int]int{}, goids: map[uint64]*Task{}, tasks: map[int]*Task{},
+	s := &Sim{Cfg: cfg, Ch: ch, ownerSeq: map[int]int{}, goids: map[uint64]*Task{}, sib: map[uint64]int{}, tasks: map[int]*Task{},
 		Stats: map[string]int{}, Probes: map[string]int{}, StateSig: map[uint64]struct{}{}}
 	s.start = time.Now()
 	s.logHash = 14695981039346656037
 	s.FaultsOn = true
+	activeSim.Store(s)
 	return s
 }
 
@@ -277,6 +283,24 @@ func (s *Sim) Probe(name string) { s.Probes[name]++ }
 func (s *Sim) Stat(name string)  { s.Stats[name]++ }
 
 // ---- goroutine identity
+
+// activeSim: the run in progress (one per process at a time). The workers of client-go's ParallelizeUntil are
+// indistinguishable goroutines of one task that may park on identical calls (get NodePool, create NodeClaim with a
+// generated name); the build overlay makes each report the piece it holds, which orders such siblings deterministically.
+var activeSim atomic.Pointer[Sim]
+
+func init() {
+	workqueue.VerifPiece = func(piece int) {
+		s := activeSim.Load()
+		if s == nil {
+			return
+		}
+		id := goid()
+		s.mu.Lock()
+		s.sib[id] = piece + 1
+		s.mu.Unlock()
+	}
+}
 
 func goid() uint64 {
 	var buf [64]byte
@@ -359,6 +383,7 @@ func (s *Sim) parkCall(c *Call) {
 	s.mu.Lock()
 	s.arrSeq++
 	c.arr = s.arrSeq
+	c.sib = s.sib[id]
 	s.goids[id] = c.Task
 	s.parked = append(s.parked, c)
 	c.Task.parkedN++
@@ -606,6 +631,9 @@ func (s *Sim) sortedParked() []*Call {
 		if a.Key != b.Key {
 			return a.Key < b.Key
 		}
+		if a.sib != b.sib {
+			return a.sib < b.sib
+		}
 		return a.arr < b.arr
 	})
 	return p
@@ -797,7 +825,12 @@ func (s *Sim) FlushRetries() int {
 func (s *Sim) Quiescent() bool {
 	synctest.Wait()
 	s.collectDone()
-	return len(s.RunningTasks()) == 0 && len(s.Mgr.Ready()) == 0 && s.cache.PendingCount() == 0
+	for _, t := range s.RunningTasks() {
+		if !s.lazyWaiting(t) {
+			return false
+		}
+	}
+	return len(s.Mgr.Ready()) == 0 && s.cache.PendingCount() == 0
 }
 
 // Settle runs default-biased steps until quiescent or the step bound is hit.
